@@ -82,9 +82,10 @@ class Disconnection:
 
   def _disconnect_dependent_line(self, ref):
     if isinstance(ref, gfapy.Line):
-      ref.disconnect()
+      if ref.is_connected():
+        ref.disconnect()
     elif isinstance(ref, gfapy.OrientedLine):
-      if isinstance(ref.line, gfapy.Line):
+      if isinstance(ref.line, gfapy.Line) and ref.line.is_connected():
         ref.line.disconnect()
     elif isinstance(ref, list):
       for i in range(len(ref)):
@@ -104,7 +105,7 @@ class Disconnection:
 
   def _disconnect_dependent_lines(self):
     for k in self.__class__.DEPENDENT_LINES:
-      for ref in self._refs.get(k, []):
+      for ref in list(self._refs.get(k, [])):
         self._disconnect_dependent_line(ref)
 
   def _remove_nonfield_backreferences(self):
